@@ -205,6 +205,10 @@ func (u *upstream) MakeRequestToHost(addr string, req *simpleRequest) {
 
 	c, err := u.getClient(addr)
 	if err != nil {
+		// The host may have left the cluster (e.g. a master which has been
+		// replaced by its replica), no redirection will ever tell, so request
+		// the new slots info.
+		u.triggerSlotsRefresh()
 		req.SetResponse(newError(err.Error()))
 		return
 	}
